@@ -4,9 +4,9 @@
 # against a scratch copy of /repo with the change applied. Expectation: exit 0 everywhere.
 dir="$1"; tier="${2:-quick}"
 declare -A NB=( [C01]="C02 C10" [C02]="C10 C13 C16 C07" [C03]="C12" [C04]="C01" [C05]="C12 C01" [C06]="C07 C08" [C07]="C06 C16" [C08]="C09" [C09]="C08" [C10]="C14 C11 C02" [C11]="C14 C10" [C12]="C02 C13" [C13]="C02 C12" [C14]="C10 C16" [C15]="C16" [C16]="C15 C14" [C17]="C09" [C18]="" [C19]="" [C20]="" )
-for p in "$dir"/C*-*/ "$dir"/w2-C*-*/; do
+for p in "$dir"/C*-*/ "$dir"/w2-C*-*/ "$dir"/w3-C*-*/; do
   [ -d "$p" ] || continue
-  id=$(basename "$p"); bare=${id#w2-}; own=${bare%%-*}
+  id=$(basename "$p"); bare=${id#w2-}; bare=${bare#w3-}; own=${bare%%-*}
   echo "##### $id"
   /verif/tools/try_mutant.sh "$p/patch.diff" "$tier" $own ${NB[$own]} 2>&1 | cut -c1-400
 done
